@@ -1,5 +1,6 @@
 import AffVerif.Proofs.PruneSound
 import AffVerif.Model.Regions
+import AffVerif.Proofs.RegionMachine
 /-!
 # C09 — reported regions agree with evaluation
 
@@ -11,9 +12,10 @@ Proved: an input satisfies the reported conditions of every node on its route; a
 region of a child is routed to that child; the stream with skips (`regionsSkipT`, what the judge compares the
 implementation's stream with) reports the nodes of the C13 reference traversal once each, in pre-order, each with the
 path conditions `regionsT` assigns to it, and is `regionsT` itself without skips; distinct labels of a decision have
-disjoint open half-spaces.  Open: the machine refinement (`PolyhedraGen` machine = `regionsSkipT`; the judge compares
-the implementation with both), disjointness of whole terminal regions and cover as theorems (decided exactly per
-generated tree by the judge).
+disjoint open half-spaces; the `PolyhedraGen` machine (DfsPre + predicate stack + `parent()` look-ups) emits exactly
+that stream on every tree with pairwise distinct indices (C12's invariant), for every skip schedule; the regions of
+distinct terminals (`termRegions`, a sub-list of the reported regions) have pairwise disjoint interiors, and cover the
+input space when no branch is missing.
 -/
 set_option linter.unusedSectionVars false
 set_option linter.unusedVariables false
@@ -249,5 +251,243 @@ theorem C09_sibling_interiors_disjoint (d : Aff α) (x : List α) (hwf : d.WF) (
   have e0 := C09_interior_routed d x 0 (Or.inl rfl) hwf hrows h0
   have e1 := C09_interior_routed d x 1 (Or.inr rfl) hwf hrows h1
   omega
+
+/-- the `PolyhedraGen` machine — `DfsPre`, the stack of half-spaces cut back to the next node's depth, the half-space
+    of the parent edge found by `parent()` — reports exactly the reference stream, under every skip schedule (repeated
+    skips included), on every tree whose arena indices are pairwise distinct -/
+theorem C09_machine_run (whole : PT α) (hnd : whole.indices.Nodup) (sk : Nat → Nat) :
+    PGen.run whole sk whole.size (PGen.new whole) 0 = (regionsSkipT sk whole 0 0 [] 0).1 := by
+  have hinv : RInv whole [] 0 [(0, whole, 0, [])] := by
+    refine ⟨rfl, by simp, ?_⟩
+    intro e he
+    simp only [List.mem_singleton] at he
+    subst he
+    refine ⟨⟨none, ITree.subs_head whole none⟩, fun _ => ⟨rfl, ITree.parentOf?_root whole hnd⟩, fun d' hd' => by simp at hd'⟩
+  have := pgen_run_eq_ref whole hnd sk whole.size [(0, whole, 0, [])] [] 0 0
+    (if whole.idx = whole.idx then whole.size else 0) whole.size 0 hinv (by simp [RStack.erase, stackSize])
+  simpa [PGen.new, Dfs.new, RStack.erase, refRegStack] using this
+
+/-! ### regions of the terminals: cover and disjoint interiors -/
+
+mutual
+/-- the terminals of a tree, left to right, each with the half-spaces of its path: the sub-list of `regionsT` -/
+def PT.termRegions : PT α → List (Aff α) → List (Nat × List (Aff α))
+  | .node i c ks, path => if ks.allNone then [(i, path)] else PKids.termRegions ks c.aff 0 path
+def PKids.termRegions : PKids α → Aff α → Nat → List (Aff α) → List (Nat × List (Aff α))
+  | .nil, _, _, _ => []
+  | .cons none r, a, l, path => PKids.termRegions r a (l+1) path
+  | .cons (some t) r, a, l, path => PT.termRegions t (path ++ [halfspace a l]) ++ PKids.termRegions r a (l+1) path
+end
+
+mutual
+theorem PT.termRegions_sub (t : PT α) (path : List (Aff α)) (d r : Nat) :
+    ∀ e ∈ PT.termRegions t path, e ∈ (regionsT t d r path).map (fun q => (q.1.idx, q.2)) := by
+  match t with
+  | .node i c ks =>
+    intro e he
+    simp only [PT.termRegions] at he
+    simp only [regionsT, List.map_cons, List.mem_cons]
+    split at he
+    · simp only [List.mem_singleton] at he; left; exact he
+    · right; exact PKids.termRegions_sub ks c.aff 0 path (d+1) e he
+theorem PKids.termRegions_sub (ks : PKids α) (a : Aff α) (l : Nat) (path : List (Aff α)) (d : Nat) :
+    ∀ e ∈ PKids.termRegions ks a l path, e ∈ (regionsK ks a l d path).map (fun q => (q.1.idx, q.2)) := by
+  match ks with
+  | .nil => intro e he; simp [PKids.termRegions] at he
+  | .cons none r =>
+    intro e he
+    simp only [PKids.termRegions] at he
+    simp only [regionsK]
+    exact PKids.termRegions_sub r a (l+1) path d e he
+  | .cons (some t) r =>
+    intro e he
+    simp only [PKids.termRegions, List.mem_append] at he
+    simp only [regionsK, List.map_append, List.mem_append]
+    rcases he with he | he
+    · left; exact PT.termRegions_sub t _ d r.count e he
+    · right; exact PKids.termRegions_sub r a (l+1) path d e he
+end
+
+mutual
+/-- binary trees with one-row decisions (what `polyhedra()` supports) -/
+def PT.Bin : PT α → Prop
+  | .node _ c ks => (ks.allNone = false → c.aff.WF ∧ c.aff.outdim = 1 ∧ ks.length = 2) ∧ PKids.Bin ks
+def PKids.Bin : PKids α → Prop
+  | .nil => True
+  | .cons none r => PKids.Bin r
+  | .cons (some t) r => PT.Bin t ∧ PKids.Bin r
+end
+
+mutual
+/-- no missing branches -/
+def PT.NoMissing : PT α → Prop
+  | .node _ _ ks => ks.allNone = true ∨ PKids.NoMissing ks
+def PKids.NoMissing : PKids α → Prop
+  | .nil => True
+  | .cons none _ => False
+  | .cons (some t) r => PT.NoMissing t ∧ PKids.NoMissing r
+end
+
+/-- strictly inside every reported half-space -/
+def StrictIn (path : List (Aff α)) (x : List α) : Prop := ∀ h ∈ path, ∀ rb ∈ h.rows, dot rb.1 x < rb.2
+
+theorem label_lt_two (d : Aff α) (x : List α) (hrows : d.outdim = 1) : d.label x < 2 := by
+  unfold Aff.outdim at hrows
+  unfold Aff.label
+  match hm : d.mat, d.bias with
+  | [r], b :: bs => simp only [labelBits]; split <;> simp
+  | [r], [] => simp [labelBits]
+  | [], _ => simp [hm] at hrows
+  | _ :: _ :: _, _ => simp [hm] at hrows
+
+mutual
+theorem PT.cover (t : PT α) (x : List α) (path : List (Aff α)) (hx : InPath path x) (hb : PT.Bin t)
+    (hf : PT.NoMissing t) : ∃ e ∈ PT.termRegions t path, InPath e.2 x := by
+  match t with
+  | .node i c ks =>
+    unfold PT.Bin at hb
+    unfold PT.NoMissing at hf
+    simp only [PT.termRegions]
+    by_cases hall : ks.allNone = true
+    · simp only [hall, if_true]
+      exact ⟨_, List.mem_singleton.mpr rfl, hx⟩
+    · have hall' : ks.allNone = false := by simpa using hall
+      simp only [hall', Bool.false_eq_true, if_false]
+      obtain ⟨hwf, hrows, hlen⟩ := hb.1 hall'
+      have hmem := mem_halfspace_label c.aff x hwf (by omega)
+      have hlt := label_lt_two c.aff x hrows
+      have hfk : PKids.NoMissing ks := by
+        rcases hf with hf | hf
+        · simp [hf] at hall
+        · exact hf
+      exact PKids.coverAt ks c.aff 0 (c.aff.label x) x path hx (by simpa using hmem) hb.2 hfk (by omega)
+theorem PKids.coverAt (ks : PKids α) (a : Aff α) (l n : Nat) (x : List α) (path : List (Aff α))
+    (hx : InPath path x) (hmem : Poly.Mem (halfspace a (l+n)) x) (hb : PKids.Bin ks) (hf : PKids.NoMissing ks)
+    (hlen : n < ks.length) : ∃ e ∈ PKids.termRegions ks a l path, InPath e.2 x := by
+  match ks, n with
+  | .nil, _ => simp [IKids.length] at hlen
+  | .cons none r, _ => simp [PKids.NoMissing] at hf
+  | .cons (some t) r, 0 =>
+    unfold PKids.Bin at hb
+    unfold PKids.NoMissing at hf
+    obtain ⟨e, he, hin⟩ := PT.cover t x (path ++ [halfspace a l]) (hx.append (InPath.single (by simpa using hmem))) hb.1 hf.1
+    exact ⟨e, by simp only [PKids.termRegions, List.mem_append]; left; exact he, hin⟩
+  | .cons (some t) r, n+1 =>
+    unfold PKids.Bin at hb
+    unfold PKids.NoMissing at hf
+    obtain ⟨e, he, hin⟩ := PKids.coverAt r a (l+1) n x path hx (by rw [show l + 1 + n = l + (n+1) by omega]; exact hmem) hb.2 hf.2
+      (by simp only [IKids.length] at hlen; omega)
+    exact ⟨e, by simp only [PKids.termRegions, List.mem_append]; right; exact he, hin⟩
+end
+
+
+theorem StrictIn.of_prefix {p q : List (Aff α)} {x : List α} (h : StrictIn q x) (hp : p <+: q) : StrictIn p x := by
+  obtain ⟨r, rfl⟩ := hp
+  intro a ha
+  exact h a (List.mem_append.mpr (Or.inl ha))
+
+mutual
+theorem PT.term_prefix (t : PT α) (path : List (Aff α)) : ∀ e ∈ PT.termRegions t path, path <+: e.2 := by
+  match t with
+  | .node i c ks =>
+    intro e he
+    simp only [PT.termRegions] at he
+    split at he
+    · simp only [List.mem_singleton] at he; subst he; exact List.prefix_refl _
+    · obtain ⟨l', _, _, hp⟩ := PKids.term_prefix ks c.aff 0 path e he
+      exact List.IsPrefix.trans (List.prefix_append _ _) hp
+theorem PKids.term_prefix (ks : PKids α) (a : Aff α) (l : Nat) (path : List (Aff α)) :
+    ∀ e ∈ PKids.termRegions ks a l path, ∃ l', l ≤ l' ∧ l' < l + ks.length ∧ (path ++ [halfspace a l']) <+: e.2 := by
+  match ks with
+  | .nil => intro e he; simp [PKids.termRegions] at he
+  | .cons none r =>
+    intro e he
+    simp only [PKids.termRegions] at he
+    obtain ⟨l', h1, h2, h3⟩ := PKids.term_prefix r a (l+1) path e he
+    exact ⟨l', by omega, by simp only [IKids.length]; omega, h3⟩
+  | .cons (some t) r =>
+    intro e he
+    simp only [PKids.termRegions, List.mem_append] at he
+    rcases he with he | he
+    · exact ⟨l, le_refl _, by simp only [IKids.length]; omega, PT.term_prefix t _ e he⟩
+    · obtain ⟨l', h1, h2, h3⟩ := PKids.term_prefix r a (l+1) path e he
+      exact ⟨l', by omega, by simp only [IKids.length]; omega, h3⟩
+end
+
+/-- two terminals behind different labels of a one-row decision have disjoint open regions -/
+theorem strict_labels_disjoint (a : Aff α) (hwf : a.WF) (hrows : a.outdim = 1) (path : List (Aff α)) (l l' : Nat)
+    (hl : l < l') (hl' : l' < 2) (p q : List (Aff α)) (x : List α)
+    (hp : (path ++ [halfspace a l]) <+: p) (hq : (path ++ [halfspace a l']) <+: q)
+    (sp : StrictIn p x) (sq : StrictIn q x) : False := by
+  have hl0 : l = 0 := by omega
+  have hl1 : l' = 1 := by omega
+  subst hl0; subst hl1
+  have s0 := (sp.of_prefix hp) (halfspace a 0) (by simp)
+  have s1 := (sq.of_prefix hq) (halfspace a 1) (by simp)
+  exact C09_sibling_interiors_disjoint a x hwf hrows s0 s1
+
+mutual
+theorem PT.term_pairwise (t : PT α) (path : List (Aff α)) (hb : PT.Bin t) :
+    (PT.termRegions t path).Pairwise (fun e f => ∀ x, StrictIn e.2 x → StrictIn f.2 x → False) := by
+  match t with
+  | .node i c ks =>
+    unfold PT.Bin at hb
+    simp only [PT.termRegions]
+    by_cases hall : ks.allNone = true
+    · simp [hall]
+    · have hall' : ks.allNone = false := by simpa using hall
+      simp only [hall', Bool.false_eq_true, if_false]
+      obtain ⟨hwf, hrows, hlen⟩ := hb.1 hall'
+      exact PKids.term_pairwise ks c.aff 0 path hwf hrows (by omega) hb.2
+theorem PKids.term_pairwise (ks : PKids α) (a : Aff α) (l : Nat) (path : List (Aff α)) (hwf : a.WF)
+    (hrows : a.outdim = 1) (hl : l + ks.length ≤ 2) (hb : PKids.Bin ks) :
+    (PKids.termRegions ks a l path).Pairwise (fun e f => ∀ x, StrictIn e.2 x → StrictIn f.2 x → False) := by
+  match ks with
+  | .nil => simp [PKids.termRegions]
+  | .cons none r =>
+    unfold PKids.Bin at hb
+    simp only [PKids.termRegions]
+    exact PKids.term_pairwise r a (l+1) path hwf hrows (by simp only [IKids.length] at hl; omega) hb
+  | .cons (some t) r =>
+    unfold PKids.Bin at hb
+    simp only [PKids.termRegions]
+    rw [List.pairwise_append]
+    refine ⟨PT.term_pairwise t _ hb.1,
+      PKids.term_pairwise r a (l+1) path hwf hrows (by simp only [IKids.length] at hl; omega) hb.2, ?_⟩
+    intro e he f hf x se sf
+    have hp := PT.term_prefix t _ e he
+    obtain ⟨l', h1, h2, hq⟩ := PKids.term_prefix r a (l+1) path f hf
+    simp only [IKids.length] at hl
+    exact strict_labels_disjoint a hwf hrows path l l' (by omega) (by omega) e.2 f.2 x hp hq se sf
+end
+
+/-- every terminal region is one of the regions `polyhedra()` reports, with exactly those path conditions -/
+theorem C09_terminals_reported (t : PT α) :
+    ∀ e ∈ PT.termRegions t [], e ∈ (regionsT t 0 0 []).map (fun q => (q.1.idx, q.2)) :=
+  PT.termRegions_sub t [] 0 0
+
+/-- trees without missing branches: the (closed) regions of the terminals cover the whole input space -/
+theorem C09_terminals_cover (t : PT α) (hb : PT.Bin t) (hf : PT.NoMissing t) (x : List α) :
+    ∃ e ∈ PT.termRegions t [], InPath e.2 x :=
+  PT.cover t x [] (by intro h hh; simp at hh) hb hf
+
+/-- the regions of distinct terminals have disjoint interiors: no point is strictly inside the reported path
+    polytopes of two different terminals (partial trees included) -/
+theorem C09_terminal_interiors_disjoint (t : PT α) (hb : PT.Bin t) :
+    (PT.termRegions t []).Pairwise (fun e f => ∀ x, StrictIn e.2 x → StrictIn f.2 x → False) :=
+  PT.term_pairwise t [] hb
+
+/-- non-vacuity: `x ≤ 0 ? (y ≤ 1 ? · : ·) : ·` is binary, has no missing branch and three terminals -/
+def exCover : PT Rat :=
+  .node 0 ⟨⟨[[1, 0]], [0], 2⟩, .indeterminate⟩
+    (.cons (some (.node 1 ⟨⟨[[1, 0], [0, 1]], [0, 0], 2⟩, .indeterminate⟩ (.cons none (.cons none .nil))))
+      (.cons (some (.node 2 ⟨⟨[[0, 1]], [1], 2⟩, .indeterminate⟩
+        (.cons (some (.node 3 ⟨⟨[[1, 0], [0, 1]], [0, 0], 2⟩, .indeterminate⟩ (.cons none (.cons none .nil))))
+          (.cons (some (.node 4 ⟨⟨[[1, 0], [0, 1]], [0, 0], 2⟩, .indeterminate⟩ (.cons none (.cons none .nil)))) .nil)))) .nil))
+
+example : PT.Bin exCover ∧ PT.NoMissing exCover ∧ (PT.termRegions exCover []).length = 3 := by
+  refine ⟨?_, ?_, by decide +kernel⟩
+  · simp [exCover, PT.Bin, PKids.Bin, IKids.allNone, Aff.WF, Aff.outdim, IKids.length]
+  · simp [exCover, PT.NoMissing, PKids.NoMissing, IKids.allNone]
 
 end AV
